@@ -7,8 +7,8 @@ hook_commits = subprocess.run(['git','-C','/repo','log','--format=%H %s'],captur
 hooks = [l.split()[0] for l in hook_commits if 'verif hook' in l]
 
 LEVEL = {
- 'C01': ("proof", "Partial: the premises of the convergence argument are proved, its composition is not. Machine-checked for all states, requests and flag sets: (1) the joiner's snapshot — SESSION_STATE's participants, entities (owner, flag, latest pose) and components, VIKJA_STATE's actions and ODAL_STATE's instances enumerate exactly the stored sets (sound and complete, inductive invariants with a ghost position map); (2) for every mutating handler behaviour the exact state change over the whole view and the exact relayed payload and recipients, so that applying the relay to a view equal to the old state gives the new state; (3) applicability: added ids are fresh, deleted/updated things exist. The induction over histories is a pen-and-paper step (DESIGN.md). One step lemma fails and is a known finding (D13: a new subscriber is told nothing about existing components), replayed on the real code by a bounded test.", "§10 C01"),
- 'C03': ("proof", "The per-request isolation lemma is proved for every session-scoped entry point (the 17 request handlers, join, leave, disconnect, and the vikja/odal module handlers): for every other session o whose object graph is separate from the requester's (sepSessions: distinct maps, stores, generators, entity and participant objects; lazily allocated maps may both still be nil), everything o's members can observe is unchanged after the request (obsSame: members, entities with owner/flag/pose, components, subscriptions, id counters, module-state table, identity of the maps) and the separation holds again - including against a session the request creates (all its maps are fresh) or joins. In addition: frame obligations confine each handler's writes to objects reached from its own session; a connection that is not joined gets an error, changes nothing and sends nothing; module Init re-binds the module to the joined session's own state; the fields holding a session's maps are written only by the constructors (immutable obligations swept over every function of models, websocket and modules). What is not machine-checked: the induction over histories from this lemma to the two-run noninterference statement (pen-and-paper, DESIGN.md), and dagaz's partition frame.", "§10 C03"),
+ 'C01': ("proof", "Partial: the premises of the convergence argument are proved, its composition is not. Machine-checked for all states, requests and flag sets: (1) the joiner's snapshot — SESSION_STATE's participants, entities (owner, flag, latest pose) and components, VIKJA_STATE's actions and ODAL_STATE's instances enumerate exactly the stored sets (sound and complete, inductive invariants with a ghost position map); (2) for every mutating handler behaviour the exact state change over the whole view and the exact relayed payload and recipients, so that applying the relay to a view equal to the old state gives the new state; (3) applicability: added ids are fresh, deleted/updated things exist. The induction over histories is a pen-and-paper step (DESIGN.md). One step lemma fails and is a known finding (D13: a new subscriber is told nothing about existing components), replayed on the real code by a bounded test. The composition itself has a bounded stand-in, labelled bounded and not counted as proved: 4000 pseudo-random 40-request histories over 4 connections are replayed on the real handlers with per-connection views built only from received messages and compared with the server state after every request.", "§10 C01"),
+ 'C03': ("proof", "The per-request isolation lemma is proved for every session-scoped entry point (the 17 request handlers, join, leave, disconnect, and the vikja/odal module handlers): for every other session o whose object graph is separate from the requester's (sepSessions: distinct maps, stores, generators, entity and participant objects; lazily allocated maps may both still be nil), everything o's members can observe is unchanged after the request (obsSame: members, entities with owner/flag/pose, components, subscriptions, id counters, module-state table, identity of the maps) and the separation holds again - including against a session the request creates (all its maps are fresh) or joins. In addition: frame obligations confine each handler's writes to objects reached from its own session; a connection that is not joined gets an error, changes nothing and sends nothing; module Init re-binds the module to the joined session's own state; the fields holding a session's maps are written only by the constructors (immutable obligations swept over every function of models, websocket and modules). A second lemma proves that any two other sessions stay separate from each other. What is not machine-checked: the induction scheme over histories from these lemmas to the two-run noninterference statement (pen-and-paper, DESIGN.md), and dagaz's partition frame. The two-run statement has a bounded stand-in, labelled bounded: 2000 pseudo-random histories over two disjoint groups of connections are run on the real handlers with and without the other group's traffic and the received message streams compared.", "§10 C03"),
  'C02': ("proof", "Every accepted behaviour of every mutating handler is proved to emit exactly its declared, ordered event list (one response, one abstract Broadcast with the declared payload, or nothing for refusals) for all states satisfying the representation invariant, all decoded requests and all flag sets; Session.Broadcast's own loop is proved to deliver exactly once to every other member and never to the sender (ghost delivery counters, inductive invariant over the visited-key set).", "§10 C02"),
  'C04': ("proof", "Behaviours of every request handler enumerate the protocol table (complete and disjoint, proved); each is proved to send exactly one response echoing the request id with the named code, to leave the world unchanged when refusing, and to return an error without touching any session when not joined.", "§10 C04"),
  'C05': ("proof", "Foreign delete / pose update behaviours are proved to refuse (or drop) and leave the world unchanged; the owner field is set only at creation and participant ids are strictly increasing (C10).", "§10 C05"),
